@@ -195,7 +195,7 @@ def _eval_test(test, cmps, env):
     return None
 
 
-def admission(rep, rule, itp, funcs, domain, describe, seen=None):
+def admission(rep, rule, itp, funcs, domain, describe, seen=None, entry=None):
     """Every `if <test on sizes>: raise` reached in `funcs` is evaluated on each concrete point of the stated admissible
     domain (`domain`: list of {symbol: int}); a point on which the guard definitely raises is a witness that an admissible
     input is rejected.  Guards on data values (unknown under a size assignment) are not judged.  Returns (#guards, #bad)."""
@@ -211,24 +211,58 @@ def admission(rep, rule, itp, funcs, domain, describe, seen=None):
                 any(isinstance(x, (ast.Return, ast.Break, ast.Continue)) for b in block for x in ast.walk(b)):
             continue
         n += 1
-        key = (rule, e[4], normalise(s.test))
+        key = (rule, entry, e[4], normalise(s.test))
         if seen is not None and key in seen:
             continue
         wit = None
+        nrej = 0
         for env in domain:
             v = _eval_test(s.test, cmps, {k: Aff(c) for k, c in env.items()})
             if v is (arm == 'body') and v is not None:
-                wit = env
-                break
+                wit = env if wit is None else wit
+                nrej += 1
         if seen is not None:
             seen.add(key)
         fq = e[4]
         mod = fq.split('.')[0]
+        form = 'if %s: raise' if arm == 'body' else 'unless %s: raise'
         if wit is not None:
             nbad += 1
-            rep.violation(rule, fq, 'if %s: raise' % normalise(s.test)[:80], 'the guard rejects an input of the stated domain: %s '
-                          '(the estimator raises instead of returning the model)' % describe(wit), loc(mod, s))
+            # keyed by what is rejected (not by how the guard is spelt): entry point, count and first rejected grid point
+            rep.violation(rule, fq, 'size guard' + (' reached from %s' % entry if entry else '') +
+                          ' rejects %d of %d grid points, first %s' % (nrej, len(domain), describe(wit)),
+                          'the guard `%s` rejects inputs of the stated domain, e.g. %s (the estimator raises instead of returning '
+                          'the model)' % (form % normalise(s.test)[:80], describe(wit)), loc(mod, s))
         else:
-            rep.proved(rule, fq, 'if %s: raise' % normalise(s.test)[:80], 'false on all %d points of the admissible size grid' % len(domain),
+            rep.proved(rule, fq, (form % normalise(s.test)[:80]) + (' [reached from %s]' % entry if entry else ''), 'never raises on the %d points of the admissible size grid' % len(domain),
                        loc(mod, s))
     return n, nbad
+
+
+def admission_of(rep, prog, rule, mod, fname, make_args, grid, describe, seen, nmin=None):
+    """run mod.fname once on symbolic sizes (make_args() -> (args, kwargs); integer parameters are IntV over named symbols whose
+    assumed minimum is the smallest value on the grid) and judge every size guard reached in the call tree on the grid"""
+    f = prog.func(mod, fname)
+    syms = sorted(set(k for pt in grid for k in pt))
+    saved = {s_: Aff.SYM_MIN.get(s_) for s_ in syms}
+    try:
+        for s_ in syms:
+            Aff.SYM_MIN[s_] = min(pt[s_] for pt in grid if s_ in pt)
+        args, kw = make_args()
+        try:
+            v, itp = C.run_function(prog, mod, fname, args, kw)
+        except AnalysisError as e:
+            rep.undecided(rule, f.qname, 'size guards', str(e), loc(f.mod, f.node))
+            return 0
+        funcs = set(itp.trace) | {f.qname}
+        n, _bad = admission(rep, rule, itp, funcs, grid, describe, seen, entry=f.qname)
+        if n == 0:
+            rep.proved(rule, f.qname, 'size guards', 'no raise is guarded by an undecided test on the sizes alone (%d grid points)' % len(grid),
+                       loc(f.mod, f.node))
+        return n
+    finally:
+        for s_, v_ in saved.items():
+            if v_ is None:
+                Aff.SYM_MIN.pop(s_, None)
+            else:
+                Aff.SYM_MIN[s_] = v_
